@@ -497,7 +497,7 @@ func typeOf(e ast.Expr, file *ast.File) (Kind, Unit, bool) {
 		switch x.Name {
 		case "bool":
 			return KBool, UNone, true
-		case "int", "int8", "int16", "int32", "int64", "uint", "uint8", "uint16", "uint32", "uint64":
+		case "int", "int8", "int16", "int32", "int64", "uint", "uint8", "uint16", "uint32", "uint64", "byte", "rune":
 			return KInt, UPlain, true
 		}
 	case *ast.SelectorExpr:
@@ -1242,6 +1242,13 @@ func (t *tr) expr(e ast.Expr, en *env) (*Node, error) {
 	case *ast.BasicLit:
 		if v, ok := intLit(x); ok {
 			return Lit(v, UNum), nil
+		}
+
+		if x.Kind == token.CHAR {
+			// a byte / rune constant is its number
+			if r, _, _, err := strconv.UnquoteChar(strings.Trim(x.Value, "'"), '\''); err == nil {
+				return Lit(int64(r), UNum), nil
+			}
 		}
 
 		return nil, t.pkg.errorf(x.Pos(), "literal %s is not supported (integers only)", x.Value)
